@@ -325,23 +325,3 @@ func trunc(s string, n int) string {
 	}
 	return s
 }
-
-// renderRaw is render without recover (debugging aid: shows the stack of a panic).
-func renderRaw(d *cdoc) {
-	fonts, _ := fontsFor(d.Engine)
-	html, err := tree.NewHTML(utils.InputString(d.HTML), "mem://doc/", wr.MemFetcher(d.Files), "")
-	if err != nil {
-		return
-	}
-	if d.UA != "" {
-		html.UAStyleSheet = parseUA(d.UA).css
-	}
-	var sheets []tree.CSS
-	for _, u := range d.UserCSS {
-		css, _ := tree.NewCSSDefault(utils.InputString(u))
-		sheets = append(sheets, css)
-	}
-	doc := document.Render(html, sheets, d.Hints, fonts)
-	r := rec.New()
-	doc.Write(r, 1, nil)
-}
